@@ -5,7 +5,7 @@ import z3
 from vf import driver, cfront, pyaudit
 from vf.smt import Ob
 from vf.pyexec import fmt_d, I, S
-from contracts.py import flatten
+from contracts.py import flatten, vername
 
 PID = 'C32'
 
@@ -46,6 +46,7 @@ kw = dict(spec['kw'])
 if spec.get('rev'): kw = dict(reversed(list(kw.items())))
 v = Verifier(ffi, spec['src'], tmpdir=sys.argv[2], **kw)
 print(v.get_module_name())
+if len(sys.argv) > 3: print(v._vengine._class_key)
 """)
 import json
 def name(spec, seed="0"):
@@ -60,6 +61,15 @@ bad = []
 names = {name(base, s) for s in ("0", "1", "7", "random")} | {name(dict(base, rev=True), s) for s in ("0", "3")}
 if len(names) != 1:
     bad.append("module name depends on hash seed or keyword order: %r" % sorted(names))
+import re
+r = subprocess.run([sys.executable, prog, json.dumps(base), d, "key"], capture_output=True, text=True)
+nm, ck = r.stdout.split()[:2]
+rest = nm[len("_cffi__" + ck):] if nm.startswith("_cffi__" + ck) else None
+# '_cffi_<tag>_<engine key><hex 1>x<hex 2>': two variable-length hex fields need a non-hex separator
+if rest is None or not re.match(r"^[0-9a-f]*x[0-9a-f]+$", rest):
+    bad.append("module name %r (engine key %r) does not keep the two CRC32 halves apart (expected <hex>x<hex> after "
+               "the engine key): distinct checksum pairs such as (0x0abcdef1, 0x23456789) and (0xabcdef12, 0x03456789) "
+               "would share a name" % (nm, ck))
 variants = [dict(base, src=base["src"] + " "), dict(base, cdefs=base["cdefs"][:1]), dict(base, cdefs=["int f(int);typedef int t;"]),
             dict(base, kw=base["kw"][:2]), dict(base, kw=[["libraries", ["m", "d", "l"]]] + base["kw"][1:]),
             dict(base, kw=[["libraries", ["md", "l"]]] + base["kw"][1:]), dict(base, kw=[["libraries", ["m", "dl", ""]]] + base["kw"][1:]),
@@ -102,7 +112,7 @@ def more(rep, tu):
 
 def main(tier, seed):
     return driver.run_property(
-        PID, tier, seed, py_items=flatten.items(), lemmas=lemmas, more=more, concretise=concretise,
+        PID, tier, seed, py_items=flatten.items() + vername.items(), lemmas=lambda: lemmas() + vername.injectivity_lemma(), more=more, concretise=concretise,
         trusted=["A-FMT: '%d' % n is an optional '-' followed by decimal digits and is injective in n (two axioms on the "
                  "uninterpreted fmt_d)",
                  "injectivity of nested lists/dicts follows from the leaf lemmas by structural induction over the "
